@@ -53,6 +53,8 @@ struct Actor {
     panic: Option<String>,
     /// label of the scheduling point the actor last yielded at
     at: &'static str,
+    /// clock reads since the actor last gave the baton back (spin guard)
+    clock_reads: u32,
 }
 
 struct ActorWaker {
@@ -169,6 +171,7 @@ impl Shared {
         let mut st = self.st.lock().unwrap();
         st.actors[id].state = new_state;
         st.actors[id].at = at;
+        st.actors[id].clock_reads = 0;
         st.baton = Baton::Driver;
         self.driver_cv.notify_one();
         if new_state == AState::Finished {
@@ -209,6 +212,7 @@ fn run_job(job: Job) {
         match r {
             Ok(Poll::Ready(())) => break,
             Ok(Poll::Pending) => sh.yield_to_driver(id, AState::Pending, "pending"),
+            Err(p) if p.is::<SpinAbort>() => break,
             Err(_) => {
                 let msg = simcore::runner::take_last_panic().unwrap_or_else(|| "panic".into());
                 sh.st.lock().unwrap().actors[id].panic = Some(msg);
@@ -230,6 +234,11 @@ fn run_job(job: Job) {
     sh.yield_to_driver(id, AState::Finished, "finished");
 }
 
+/// Clock reads in one uninterrupted run of an actor after which it is made to yield (see `system_now`).
+const SPIN_GUARD: u32 = 4096;
+
+struct SpinAbort;
+
 struct ActorRt {
     sh: Arc<Shared>,
     id: ActorId,
@@ -237,6 +246,25 @@ struct ActorRt {
 
 impl VerifRuntime for ActorRt {
     fn system_now(&self) -> SystemTime {
+        // Spin guard: an actor that reads the clock thousands of times without ever suspending is looping at one
+        // virtual instant. Hand the baton back (deterministically, no draw) so that the driver sees a runnable actor
+        // and its step budget - not the real-time watchdog - decides.
+        let spin = {
+            let mut st = self.sh.st.lock().unwrap();
+            let a = &mut st.actors[self.id];
+            a.clock_reads += 1;
+            if a.clock_reads >= SPIN_GUARD {
+                Some(st.teardown)
+            } else {
+                None
+            }
+        };
+        match spin {
+            Some(false) => self.sh.yield_to_driver(self.id, AState::Ready, "spin-guard"),
+            // at the end of a run a spinning actor is unwound out of its loop (no panic hook, not recorded as a panic)
+            Some(true) => std::panic::resume_unwind(Box::new(SpinAbort)),
+            None => {}
+        }
         let ns = self.sh.st.lock().unwrap().now_ns;
         SystemTime::UNIX_EPOCH + Duration::from_secs(BASE_SECS) + Duration::from_nanos(ns)
     }
@@ -304,6 +332,7 @@ fn spawn_inner(sh: &Arc<Shared>, name: &'static str, fut: BoxFut) -> ActorId {
             abort: false,
             panic: None,
             at: "spawned",
+            clock_reads: 0,
         });
         id
     };
